@@ -232,6 +232,20 @@ func (r *R) ev(n *N, e *Env) V {
 			panic(ErrV{"unbound", n.S})
 		}
 		if th, ok := (*p).(*Thunk); ok {
+			unmodelled := false
+			Walk([]*N{th.n}, func(x *N) {
+				switch x.K {
+				case "sym", "str":
+					unmodelled = true
+				case "for", "break", "continue":
+					if x.S != "" { // labels print without their colon
+						unmodelled = true
+					}
+				}
+			})
+			if unmodelled {
+				panic(ErrV{"budget", "substitute-of-source-with-unmodelled-printing"})
+			}
 			return Plain.Sx(th.n)
 		}
 		if i, ok := (*p).(int64); ok {
